@@ -19,7 +19,7 @@ and top-level parameters ('p','q'); names are resolved by the scope that reaches
   {'k':'rev','id':..,'sub':node}
 Transformations:
   {'k':'offset','m':{ch:num}} {'k':'scale','m':{ch:num}} {'k':'parallel','m':{ch:num}}
-  {'k':'linear','ins':[..],'outs':[..],'mat':[[num..]..]}  {'k':'chain','ts':[...]}
+  {'k':'linear','ins':[..],'outs':[..],'mat':[[num..]..]}  {'k':'chain','ts':[...]}  {'k':'identity'}
 """
 import fractions
 import warnings
@@ -171,6 +171,9 @@ def build_trafo(t):
     if t is None:
         return None
     k = t['k']
+    if k == 'identity':
+        from qupulse.program.transformation import IdentityTransformation
+        return IdentityTransformation()
     if k == 'offset':
         return OffsetTransformation({c: _py(v) for c, v in t['m'].items()})
     if k == 'scale':
@@ -196,7 +199,7 @@ def _leaves(loop, start, out):
     return start
 
 
-def observe(program, step):
+def observe(program, step, into_array=False):
     """what the program plays on the grid k*step in [0, duration), by walking the leaves in playback order and
     sampling every leaf waveform on its own local times (this is what an AWG upload does)."""
     import numpy as np
@@ -230,6 +233,15 @@ def observe(program, step):
         assert all(F(float(x)) == x for x in loc)
         for c in chans:
             vals = wf.get_sampled(c, times)
+            if into_array:
+                # the way an upload samples: into memory the caller provides (pre-filled with a sentinel)
+                buf = np.full(len(times), 12345.678)
+                ret = wf.get_sampled(c, times, output_array=buf)
+                same = lambda a, b: len(a) == len(b) and all(x == y or (x != x and y != y) for x, y in zip(a, b))
+                if not same(list(map(float, buf)), list(map(float, vals))) or \
+                        not same(list(map(float, ret)), list(map(float, vals))):
+                    return {'crash': 'get_sampled(%r) into a provided output_array differs from get_sampled without '
+                                     'one on leaf %r' % (c, type(wf).__name__)}
             for v in vals:
                 v = float(v)
                 samples[c].append(None if v != v else vlib.frac_json(v))
@@ -255,15 +267,35 @@ def py_params(params):
     return {k: _py(v) for k, v in (params or {}).items()}
 
 
-def run_options(tree, S, G, step, params=None, share=False, built=None):
+def run_options(tree, S, G, step, params=None, share=False, built=None, cp=None):
     """-> observation of create_program(parameters=params, to_single_waveform=S, global_transformation=G); `built` =
-    (template, objs) of an earlier call: the SAME template objects are compiled again"""
+    (template, objs) of an earlier call: the SAME template objects are compiled again; `cp` = further arguments of
+    create_program: {'chmap': channel_mapping, 'mmap': measurement_mapping (complete), 'builder': explicit LoopBuilder,
+    'params_none': parameters=None instead of {}, 'into_array': sample into provided arrays as well,
+    'params_as': 'scope' | 'str' (the parameters as a DictScope / as strings)}"""
+    cp = cp or {}
     with warnings.catch_warnings():
         warnings.simplefilter('ignore')
         if built is None:
             objs = {}
             built = (build_pt(tree, objs, share={} if share else None), objs)
         pt, objs = built
-        prog = pt.create_program(parameters=py_params(params), to_single_waveform=resolve_S(tree, S, objs),
-                                 global_transformation=build_trafo(G))
-        return observe(prog, step)
+        kw = {}
+        if cp.get('chmap'):
+            kw['channel_mapping'] = dict(cp['chmap'])
+        if cp.get('mmap') is not None:
+            kw['measurement_mapping'] = dict(cp['mmap'])
+        if cp.get('builder'):
+            from qupulse.program.loop import LoopBuilder
+            kw['program_builder'] = LoopBuilder()
+        pp = py_params(params)
+        if pp and cp.get('params_as') == 'str':
+            pp = {k: repr(v) for k, v in pp.items()}
+        elif pp and cp.get('params_as') == 'scope':
+            from qupulse.parameter_scope import DictScope
+            from qupulse.utils.types import FrozenDict
+            pp = DictScope(values=FrozenDict(pp))
+        prog = pt.create_program(parameters=None if cp.get('params_none') and not pp else pp,
+                                 to_single_waveform=resolve_S(tree, S, objs) if S or not cp.get('params_none') else None,
+                                 global_transformation=build_trafo(G), **kw)
+        return observe(prog, step, into_array=bool(cp.get('into_array')))
